@@ -81,10 +81,13 @@ def main():
         return 1
     dst = os.path.join(VERIF, 'seeded', sid)
     os.makedirs(dst, exist_ok=True)
-    shutil.copy(patch, os.path.join(dst, 'patch.diff'))
-    shutil.copy(demo, os.path.join(dst, 'demo.cpp'))
+    same = os.path.realpath(src) == os.path.realpath(dst)
+    if not same:
+        shutil.copy(patch, os.path.join(dst, 'patch.diff'))
+        shutil.copy(demo, os.path.join(dst, 'demo.cpp'))
     if os.path.exists(os.path.join(src, 'README.txt')):
-        shutil.copy(os.path.join(src, 'README.txt'), os.path.join(dst, 'README.txt'))
+        if not same:
+            shutil.copy(os.path.join(src, 'README.txt'), os.path.join(dst, 'README.txt'))
         meta['needs_to_manifest'] = open(os.path.join(src, 'README.txt')).read()[:3000]
     if os.environ.get('SEEDCHECK_SCRATCH') == '1':
         # batch re-verification mode: run the checks against a scratch worktree (VERIF_REPO) so that /repo stays untouched and
